@@ -32,6 +32,14 @@ def schcOp (toks : List String) : Option String :=
   | "roundtrip" :: rest => do
     let (p, r) ← runP (do let p ← pPacket; let r ← pRule; pEnd; pure (p, r)) rest
     pure (showPy (fun (c, d) => s!"{showABuf c} {showABuf d}") (do let c ← compress p r; let d ← decompress c r; pure (c, d)))
+  | "droundtrip" :: rest => do
+    -- the bare functions with the packet's direction passed to both
+    let (p, r) ← runP (do let p ← pPacket; let r ← pRule; pEnd; pure (p, r)) rest
+    pure (showPy (fun (c, d) => s!"{showABuf c} {showABuf d}") (do
+      let c ← compressD p r (some p.dir); let d ← decompressD c r (some p.dir); pure (c, d)))
+  | "mdecompressd" :: rest => do
+    let (rs, s, d) ← runP (do let rs ← pRules; let s ← pABuf; let d ← pDir; pEnd; pure (rs, s, d)) rest
+    pure (showPy showABuf (managerDecompress rs s (some d)))
   | "fieldmatch" :: rest => do
     let (f, rf) ← runP (do let f ← pField; let rf ← pRField; pEnd; pure (f, rf)) rest
     pure (showPy (fun (b : Bool) => toString b) (fieldMatch f rf))
@@ -63,7 +71,7 @@ def schcOp (toks : List String) : Option String :=
   | "mroundtrip" :: rest => do
     let (pid, rs, pk, d, st) ← runP (do let pid ← pId; let rs ← pRules; let pk ← pABuf; let d ← pDir; let st ← pStrategy; pEnd; pure (pid, rs, pk, d, st)) rest
     pure (showPy (fun (c, d) => s!"{showABuf c} {showABuf d}") (do
-      let ps ← factory pid; let c ← managerCompress ps rs pk d st; let dd ← managerDecompress rs c; pure (c, dd)))
+      let ps ← factory pid; let c ← managerCompress ps rs pk d st; let dd ← managerDecompress rs c (some d); pure (c, dd)))
   | "fcompress" :: rest => do
     let (cs, pk, ifc) ← runP (do let n ← pNat; let cs ← pRep n pContext; let pk ← pABuf; let ifc ← pId; pEnd; pure (cs, pk, ifc)) rest
     pure (showPy showABuf (frontCompress cs pk ifc))
